@@ -7,7 +7,7 @@
 From Coq Require Import String.
 From Coq Require Import List Ascii ZArith Bool.
 From CGV Require Import Base.PyBase Base.PyVal Base.NxGraph Gen.HydroGen Hydro.Hydrogens Hydro.HydroDefs
-     Hydro.HydrogensProofs Hydro.SquashDefs Hydro.RebuildProofs Hydro.Aromatic Hydro.AromaticProofs.
+     Hydro.HydrogensProofs Hydro.SquashDefs Hydro.RebuildProofs Hydro.Aromatic Hydro.AromaticProofs Hydro.AromaticOrders.
 Import ListNotations.
 Open Scope Z_scope.
 
@@ -197,6 +197,21 @@ Theorem C09_rebuild_valence_exact_model : forall ca g M L g',
          forall j, In j idxs -> exists h, gfind j g' = Some h /\ nadj h = [(k, h_edge_attrs)] /\ is_H (na h) = true).
 Proof. exact rebuild_m_valence_exact. Qed.
 
+(** WHERE an order changes: the result has the same nodes and adjacency entries in the same order; every entry
+    keeps all attributes but `order`, and its `order` is the one it had, or 1 where it was 1.5, or 2 on a bond of the
+    matching M, or 1.5 on a bond of a ring of L (whose ends are then flagged aromatic, C09_aromatic_model_arom) *)
+Theorem C09_aromatic_model_orders : forall strict g M L g1, car_model strict g M L = Ok g1 ->
+  Forall2 (fun n m => nk n = nk m /\
+     Forall2 (fun p q => fst p = fst q /\
+        adel k_order (snd q) = adel k_order (snd p) /\
+        (aget k_order (snd q) = aget k_order (snd p)
+         \/ (is_15 (snd p) = true /\ aget k_order (snd q) = Some (VInt 1))
+         \/ (aget k_order (snd q) = Some (VInt 2) /\ (In (nk n, fst p) M \/ In (fst p, nk n) M))
+         \/ (aget k_order (snd q) = Some v15 /\
+             exists c est, In (c, est) L /\ (In (nk n, fst p) (ring_edges c) \/ In (fst p, nk n) (ring_edges c)))))
+       (nadj n) (nadj m)) g g1.
+Proof. exact car_model_orders. Qed.
+
 (** non-vacuity: benzene as a fragment writes it (all aromatic, all 1.5) is kekulised and marked again; without a
     marked ring the kekulised state stays; a non-matching, an extendable matching and a non-alternating ring are
     rejected; an odd ring that cannot be kekulised raises SyntaxError exactly when strict *)
@@ -231,3 +246,4 @@ Print Assumptions C09_aromatic_model_skeleton.
 Print Assumptions C09_aromatic_model_arom.
 Print Assumptions C09_rebuild_through_model.
 Print Assumptions C09_rebuild_valence_exact_model.
+Print Assumptions C09_aromatic_model_orders.
